@@ -81,6 +81,9 @@ func TestVerifC19Expect(t *testing.T) {
 				name := []string{"LICENSE", "COPYING.txt", "file.go", "notes.md", "x.c", "weird name.txt"}[r.Intn(6)]
 				rel := filepath.Join(sub, fmt.Sprintf("%02d_%s", fi, name))
 				kind := []string{"licensed", "licensed", "edited", "several", "unlicensed", "empty", "no-trailing-newline", "crlf", "long-line-before", "long-line-inside", "long-line-after", "invalid-utf8", "header", "notice-only"}[r.Intn(14)]
+				if r.Intn(12) == 0 || (ti == 1 && fi == 0) || (ti == 2 && fi%10 == 3) {
+					kind = "headers-adjacent"
+				}
 				if allEmpty {
 					kind = []string{"unlicensed", "empty"}[r.Intn(2)]
 				}
@@ -119,6 +122,22 @@ func TestVerifC19Expect(t *testing.T) {
 						d = docs[r.Intn(len(docs))]
 					}
 					content = "// " + strings.ReplaceAll(strings.TrimRight(string(d.raw), "\n"), "\n", "\n// ") + "\npackage main\n" + vOOVBlock(r, 3)
+				case "headers-adjacent":
+					// several header matches next to each other in the result list (and
+					// nothing else, or a license after them)
+					var sb strings.Builder
+					for k, n := 0, 2+r.Intn(3); k < n; k++ {
+						h := docs[r.Intn(len(docs))]
+						for !strings.HasPrefix(h.key, "Header/") || len(h.raw) > 4000 {
+							h = docs[r.Intn(len(docs))]
+						}
+						sb.WriteString("// " + strings.ReplaceAll(strings.TrimRight(string(h.raw), "\n"), "\n", "\n// ") + "\n")
+						sb.WriteString(vOOVBlock(r, 1+r.Intn(2)))
+					}
+					if r.Intn(2) == 0 {
+						sb.WriteString(vWithNL(string(d.raw)))
+					}
+					content = sb.String()
 				case "notice-only":
 					content = "Copyright 2020 Example Corp\n" + vOOVBlock(r, 2)
 				}
